@@ -1038,6 +1038,11 @@ class list_t(object):
                     # The model's view is always masked 2's complement
                     v = int(self.model.field_l[self.idx].get_val())
                     
+                    if self.l.is_enum:
+                        # As indexing does: the enumerator, not its value
+                        self.idx += 1
+                        return self.l.t.enum_i.v2e(v)
+                    
                     if self.l.t.is_signed:
                         if (v & (1 << (self.l.t.width-1))) != 0:
                             v = -((~v & self.l.mask)+1)
